@@ -6,7 +6,7 @@ import json
 import random
 import warnings
 
-from harness import core, anngen
+from harness import core, anngen, project
 from harness.project import call, fix
 
 RES = "ACDEFGHIKLMNPQRSTVWYUO"
@@ -48,6 +48,7 @@ def series_event(pp, tid, A, mono, rnd):
 
     def f():
         M = pp.mass(text, charge=0, ion_type="p", monoisotopic=mono)
+        project.maybe_poison(pp, text, tid, every=2)
         # the charge list in an order that depends on the peptide (each charge state is computed on its own)
         zs = [[1, 2, 3, 4], [4, 3, 2, 1], [2, 4, 1, 3], [3, 1, 4, 2]][len(text) % 4]
         tf = pp.fragment(text, TERMINAL, zs, monoisotopic=mono)
